@@ -9,6 +9,7 @@ import M17.Spec.Crc
 import M17.Model.Cond
 import M17.Model.Puncture
 import M17.Model.Callsign
+import M17.Model.Prbs
 
 open M17
 
@@ -27,6 +28,19 @@ def pmat (P : Nat) : List Nat :=
   else if P == 3 then [1, 0, 1] else if P == 5 then [0, 1, 1, 0, 1] else []
 
 def bitsToInts (bs : List Bool) : List Int := bs.map fun b => if b then 1 else 0
+
+def prbsScenario (toks : List Int) : String :=
+  let rec go (fuel : Nat) (toks : List Int) (v : Prbs.St) (h : Nat) : Prbs.St × Nat :=
+    match fuel, toks with
+    | 0, _ => (v, h)
+    | _, [] => (v, h)
+    | f+1, 2 :: rest => go f rest Prbs.init h
+    | f+1, 3 :: x :: rest => go f rest { v with state := x.toNat % 65536 } h
+    | f+1, b :: rest =>
+      let (v', r) := Prbs.validate v (b != 0)
+      go f rest v' ((h * 1000003 + (if r then 1 else 0) + 2 * (if v'.synced then 1 else 0)) % 1000000007)
+  let (v, h) := go (toks.length + 1) toks Prbs.init 7
+  joinNats [if v.synced then 1 else 0, v.errCount, v.bitCount, v.state, v.syncCount, v.histCount, v.histPos, h]
 
 /-- state carried across lines (stateful components get a field each) -/
 structure DrvState where
@@ -80,6 +94,10 @@ def handle (st : DrvState) (op : String) (a : List Int) : DrvState × String :=
     (st, joinNats (n :: out))
   | "call_enc", v => (st, joinNats (Call.encode ((v.map Int.toNat) ++ List.replicate (10 - v.length) 0)))
   | "call_dec", v => (st, joinNats (Call.decode (v.map Int.toNat)))
+  | "prbs_gen", n :: rest =>
+    let g := match rest with | [x] => x.toNat | _ => Gen.prbsInitState
+    (st, joinInts ((bitsToInts (Prbs.genBits n.toNat g)) ++ [Int.ofNat (Prbs.genState n.toNat g)]))
+  | "prbs", toks => (st, prbsScenario toks)
   | _, _ => (st, "bad-op")
 
 partial def loop (h : IO.FS.Stream) (out : IO.FS.Stream) (st : DrvState) : IO Unit := do
